@@ -61,6 +61,13 @@ LEAF_POOL = [
     {"kind": "rule", "name": "StrIntTuple", "origin": "tuple", "cons": {}, "args": ["str", "int"]},
     {"kind": "rule", "lib": "NanFloat", "name": "NanFloat", "origin": "float", "cons": {}},
     {"kind": "rule", "lib": "InfinityFloat", "name": "InfinityFloat", "origin": "float", "cons": {}},
+    # RELATED leaves: a rule and its stricter subclasses, a data class and its subclass ("base" = name of the parent leaf,
+    # which is always placed before it in a case)
+    {"kind": "rule", "name": "Percent", "origin": "int", "cons": {"ge": 0, "le": 100}},
+    {"kind": "rule", "name": "Grade", "base": "Percent", "origin": "int", "cons": {"le": 10}},
+    {"kind": "rule", "name": "Tiny", "base": "Grade", "origin": "int", "cons": {"le": 3}},
+    {"kind": "rule", "name": "ShortSlug", "base": "Slug", "origin": "str", "cons": {"max_length": 3}},
+    {"kind": "rule", "name": "FewPositive", "base": "HasPositive", "origin": "list", "cons": {"max_contains": 1}},
     {"kind": "alias", "spec": "List[int]"},
     {"kind": "alias", "spec": "List[str]"},
     {"kind": "alias", "spec": "Dict[str, int]"},
@@ -72,6 +79,7 @@ LEAF_POOL = [
     {"kind": "dc", "name": "DcA", "fields": [["a", "int", None]]},
     {"kind": "dc", "name": "DcUser", "fields": [["name", "str", None], ["age", "int", None]]},
     {"kind": "dc", "name": "DcOpt", "fields": [["a", "int", None], ["b", "str", {"s": ""}]]},
+    {"kind": "dc", "name": "DcAB", "base": "DcA", "fields": [["b", "str", None]]},
     {"kind": "any"},
     {"kind": "none"},
     {"kind": "rulebase"},
@@ -80,7 +88,7 @@ UTYPE_KINDS = ("rule", "dc")          # operands whose metaclass makes Python ca
 
 VALUE_POOL = [
     None, True, False,
-    {"i": "0"}, {"i": "1"}, {"i": "3"}, {"i": "4"}, {"i": "8"}, {"i": "-3"},
+    {"i": "0"}, {"i": "1"}, {"i": "3"}, {"i": "4"}, {"i": "8"}, {"i": "-3"}, {"i": "10"}, {"i": "50"}, {"i": "101"}, {"s": "50"},
     {"f": "3.0"}, {"f": "3.5"}, {"f": "-2.5"}, {"f": "nan"},
     {"s": "3"}, {"s": "3.0"}, {"s": "3.5"}, {"s": "-2"}, {"s": "8"}, {"s": "abc"}, {"s": "a"}, {"s": "mon"}, {"s": "abcd"},
     {"s": ""}, {"s": "null"}, {"s": "true"}, {"s": "1.25"}, {"s": "2000-01-02"}, {"s": "[1, 2]"}, {"s": "x y"},
@@ -92,6 +100,7 @@ VALUE_POOL = [
     {"t": [{"s": "x"}, {"i": "1"}]}, {"t": [{"s": "x"}, {"s": "y"}]}, {"t": [{"i": "1"}]},
     {"m": []}, {"m": [[{"s": "a"}, {"s": "1"}]]}, {"m": [[{"s": "a"}, {"i": "2"}], [{"s": "b"}, {"s": "x"}]]},
     {"m": [[{"s": "name"}, {"s": "bob"}], [{"s": "age"}, {"s": "3"}]]},
+    {"m": [[{"s": "a"}, {"s": "1"}], [{"s": "b"}, {"s": "x"}]]},
     {"date": "2000-01-02"},
     {"inst": "DcA", "kw": [["a", {"i": "1"}]]},
     {"inst": "DcUser", "kw": [["name", {"s": "bob"}], ["age", {"i": "3"}]]},
@@ -253,7 +262,8 @@ HOOKS = {"post_nan": ("post_validate", _h_post_nan), "post_nonneg": ("post_valid
          "pre_nonempty": ("pre_validate", _h_pre_nonempty), "post_evenlen": ("post_validate", _h_post_evenlen)}
 
 
-def _mk_leaf(d):
+def _mk_leaf(d, made=None):
+    """`made`: name -> class of the leaves built so far (for `base`)"""
     import typing
     from utype import Rule, Schema
     ns, cls = _env()
@@ -276,6 +286,8 @@ def _mk_leaf(d):
                 return _fn(value)
 
             attrs[which] = classmethod(hook)
+        if d.get("base"):
+            return type(d["name"], ((made or {})[d["base"]],), attrs)        # a stricter subclass of another leaf
         return type(d["name"], (cls[d["origin"]], Rule), attrs)
     if k == "alias":
         return eval(d["spec"], dict(ns))
@@ -286,7 +298,7 @@ def _mk_leaf(d):
         for n, _, dv in d["fields"]:
             if dv is not None:
                 attrs[n] = decode_value(dv)
-        return type(d["name"], (Schema,), attrs)
+        return type(d["name"], ((made or {})[d["base"]] if d.get("base") else Schema,), attrs)
     if k == "any":
         return typing.Any
     if k == "none":
@@ -294,6 +306,16 @@ def _mk_leaf(d):
     if k == "rulebase":
         return Rule
     raise ValueError(k)
+
+
+def _mk_leaves(leaves):
+    made, raws = {}, []
+    for d in leaves:
+        r = _mk_leaf(d, made)
+        raws.append(r)
+        if d.get("name") and d["kind"] in ("rule", "dc"):
+            made[d["name"]] = r
+    return raws
 
 
 class _Foreign(Exception):
@@ -324,14 +346,15 @@ def _is_operand(x, raws):
     return any(x is r for r in raws)
 
 
-def _eval_expr(e, raws, built):
+def _eval_expr(e, raws, built, log=None):
+    """`log` collects every negation step (kind, operand object, result object)"""
     from utype.parser.rule import LogicalType
     if "atom" in e:
         return raws[e["atom"]]
     if "ref" in e:
         return built[e["ref"]]
     if "bin" in e:
-        l, r = _eval_expr(e["l"], raws, built), _eval_expr(e["r"], raws, built)
+        l, r = _eval_expr(e["l"], raws, built, log), _eval_expr(e["r"], raws, built, log)
         if not (_is_utype(l) or _is_utype(r)):
             raise _Foreign("no utype operand")       # Python's own `int | str`, `3 | 3`, `None & int` …
         try:
@@ -341,7 +364,7 @@ def _eval_expr(e, raws, built):
                 raise _BuildError(f"{type(ex).__name__} in <{type(l).__name__}> {e['bin']} <{type(r).__name__}>")
             raise _Foreign(type(ex).__name__)
     elif "inv" in e:
-        x = _eval_expr(e["inv"], raws, built)
+        x = _eval_expr(e["inv"], raws, built, log)
         if not _is_utype(x):
             raise _Foreign("no utype operand")
         try:
@@ -351,13 +374,18 @@ def _eval_expr(e, raws, built):
                 raise _BuildError(f"{type(ex).__name__} in ~<{type(x).__name__}>")
             raise _Foreign(type(ex).__name__)
     else:
-        args = [_eval_expr(a, raws, built) for a in e["args"]]
+        args = [_eval_expr(a, raws, built, log) for a in e["args"]]
         try:
             res = getattr(LogicalType, CALLS[e["call"]])(*args)
         except Exception as ex:
             raise _BuildError(f"{type(ex).__name__} in {CALLS[e['call']]}")
     if not _is_operand(res, raws):
         raise _Foreign(type(res).__name__)       # typing.Union / types.UnionType: the expression never reached utype
+    if log is not None:
+        if "inv" in e:
+            log.append(("inv", x, res))
+        elif e.get("call") == "~" and len(args) == 1 and (_is_utype(args[0]) or isinstance(args[0], type)):
+            log.append(("not_of", args[0], res))
     return res
 
 
@@ -404,16 +432,16 @@ def impl(case):
     if case.get("op") == "probe":
         return _probe(case)
     leaves = case["leaves"]
-    raws = [_mk_leaf(d) for d in leaves]
+    raws = _mk_leaves(leaves)
     dcs = {d["name"]: raws[i] for i, d in enumerate(leaves) if d["kind"] == "dc"}
     # the leaf as a combinator sees it
     seen = [LogicalType._parse_arg(r) if leaves[i]["kind"] in ("alias", "lit", "none") else r for i, r in enumerate(raws)]
     sig = {repr(seen[i]): i for i, d in enumerate(leaves) if d["kind"] in ("alias", "lit")}
     out = {}
-    built = []
+    built, neglog = [], []
     try:
         for d in case["defs"]:
-            built.append(_eval_expr(d, raws, built))
+            built.append(_eval_expr(d, raws, built, neglog))
     except _Foreign as f:
         return {"struct": None, "foreign": str(f)}
     except _BuildError as f:
@@ -468,6 +496,8 @@ def impl(case):
         if isinstance(x, LogicalType) and x.combinator:
             if id(x) in node_index:
                 k = node_index[id(x)]
+                if nodes[k]["struct"] is None:            # the type is (indirectly) an operand of itself
+                    return {"cycle": k}, {"node": k}
                 return nodes[k]["struct"], {"node": k}
             k = len(nodes)
             node_index[id(x)] = k
@@ -488,8 +518,24 @@ def impl(case):
             return {"annot": sig[repr(x)], "id": ident(x)}, {"leaf": sig[repr(x)], "obj": x}
         return {"unknown": repr(x)[:80]}, {"unknown": True}
 
+    # the structure after EVERY construction step (not only the last), and every negation step ⟨operand, result⟩
+    steps = [struct(type(None) if b is None else b)[0] for b in built[:-1]]
     s_root, c_root = struct(root)
     out["struct"] = s_root
+    out["structs"] = steps + [s_root] if not via else None
+    invs = []
+    for kind_, x, res in neglog:
+        sx, cx = struct(x)
+        sr, cr = struct(res)
+        ux, ur = unwrap(x), unwrap(res)
+        rec = {"kind": kind_, "operand": sx, "result": sr,
+               "operand_ref": {k: v for k, v in cx.items() if k != "obj"}, "result_ref": {k: v for k, v in cr.items() if k != "obj"}}
+        if isinstance(ux, LogicalType) and ux.combinator == "~" and len(ux.args) == 1:
+            rec["result_is_inner"] = ur is ux.args[0]                      # ~~T is T
+        if isinstance(ur, LogicalType) and ur.combinator == "~":
+            rec["arg_is_operand"] = len(ur.args) == 1 and ur.args[0] is ux   # ~T has args [T]
+        invs.append(rec)
+    out["invs"] = invs
 
     # ---- measure: leaves in isolation and every combinator node, on the closure of values --------------------
     opts = case["opts"]
@@ -570,7 +616,7 @@ def _probe(case):
     whether they convert it, and for converting leaves what the others say about the converted value"""
     from utype.parser.rule import LogicalType
     leaves = case["leaves"]
-    raws = [_mk_leaf(d) for d in leaves]
+    raws = _mk_leaves(leaves)
     dcs = {d["name"]: raws[i] for i, d in enumerate(leaves) if d["kind"] == "dc"}
     seen = [LogicalType._parse_arg(r) if leaves[i]["kind"] in ("alias", "lit", "none") else r for i, r in enumerate(raws)]
     acc, conv, thread, origin = [], [], [], []
@@ -610,6 +656,8 @@ def _is_ok(o):
 
 def struct_eq(a, b) -> bool:
     """structural equality of two extracted types, ignoring object identity"""
+    if not isinstance(a, dict) or not isinstance(b, dict):
+        return a == b
     if set(a) - {"id"} != set(b) - {"id"}:
         return False
     if "comb" in a:
@@ -635,6 +683,8 @@ def algebra_violations(case, s, top=True) -> list:
     if not isinstance(s, dict) or "comb" not in s:
         return out
     c, args = s["comb"], s["args"]
+    if any(isinstance(a, dict) and "cycle" in a for a in args):
+        out.append(("cycle", f"a '{c}' type is an operand of itself"))
     for i in range(len(args)):
         for k in range(i + 1, len(args)):
             if struct_eq(args[i], args[k]):
@@ -704,7 +754,11 @@ def expected_chain(case, e, op):
 
 def order_violations(case, s) -> list:
     """`a <op> b <op> c` has the operands a, b, c — in the order written (first occurrences; Any absorbed)"""
-    if len(case["defs"]) != 1 or case.get("via"):
+    if case.get("via"):
+        return []
+    if isinstance(s, list):            # one structure per construction step
+        return [v for e, st in zip(case["defs"], s) for v in order_violations(dict(case, defs=[e]), st)]
+    if len(case["defs"]) != 1:
         return []
     e = case["defs"][0]
     op = e.get("bin") or e.get("call")
@@ -728,6 +782,54 @@ def order_violations(case, s) -> list:
     if got_ok:
         return []
     return [("order", f"'{op}'-chain {json.dumps(e)[:160]} should build {want} (operands in the order written), built {json.dumps(norm_ids(s))[:200]}")]
+
+
+def negation_step_violations(case, io) -> list:
+    """every negation step of the construction, whatever was built before it: `~T` (T not a negation) is a negation with
+    the single operand T itself; `~~T` is T itself; and `~T` accepts exactly the inputs T — measured in isolation —
+    rejects, unchanged"""
+    out = []
+    leaf_t = {(l, a, b, v): o for l, a, b, v, o in io.get("table", [])}
+    node_t = {(k, a, b, v): o for k, a, b, v, o in io.get("ntable", [])}
+
+    def look(ref, var, v):
+        if "leaf" in ref:
+            return leaf_t.get((ref["leaf"], var[0], var[1], v))
+        if "node" in ref:
+            return node_t.get((ref["node"], var[0], var[1], v))
+        if "special" in ref:
+            return {"ok": v}
+        return None
+
+    for n, rec in enumerate(io.get("invs") or []):
+        so, sr = rec["operand"], rec["result"]
+        if "unknown" in so or "unknown" in sr:
+            continue
+        op_is_neg = isinstance(so, dict) and so.get("comb") == "~" and len(so["args"]) == 1
+        if op_is_neg:
+            if rec["kind"] == "inv" and not rec.get("result_is_inner"):
+                out.append(("neg-cancel", f"negation step {n}: ~~T is not T: ~{json.dumps(norm_ids(so))[:120]} gave {json.dumps(norm_ids(sr))[:120]}"))
+            continue
+        if not (isinstance(sr, dict) and sr.get("comb") == "~" and len(sr["args"]) == 1 and struct_eq(sr["args"][0], so)
+                and rec.get("arg_is_operand")):
+            out.append(("neg-args", f"negation step {n}: the negation of {json.dumps(norm_ids(so))[:120]} is {json.dumps(norm_ids(sr))[:160]}, "
+                                    f"whose operand is not that type"))
+        for var in map(tuple, io.get("variants", [])):
+            for v in range(len(io.get("values", []))):
+                T, R = look(rec["operand_ref"], var, v), look(rec["result_ref"], var, v)
+                if T is None or R is None:
+                    continue
+                if _is_ok(R) == _is_ok(T):
+                    out.append(("law", f"negation step {n}: ~T accepts={_is_ok(R)} although T = {json.dumps(norm_ids(so))[:100]} measured in "
+                                       f"isolation accepts={_is_ok(T)} on value #{v} {json.dumps(io['values'][v])} (ndl={var[0]} nec={var[1]})"))
+                    break
+                if _is_ok(R) and R["ok"] != v:
+                    out.append(("law", f"negation step {n}: ~T did not return the input unchanged on value #{v}"))
+                    break
+            else:
+                continue
+            break
+    return out
 
 
 def node_law_violations(case, io) -> list:
@@ -887,11 +989,23 @@ class Probe:
         return hot
 
 
+def with_bases(idx):
+    names = {d.get("name"): i for i, d in enumerate(LEAF_POOL) if d.get("name")}
+    out = set(idx)
+    todo = list(idx)
+    while todo:
+        b = LEAF_POOL[todo.pop()].get("base")
+        if b is not None and names[b] not in out:
+            out.add(names[b])
+            todo.append(names[b])
+    return sorted(out)          # pool order puts a base before its subclasses
+
+
 def pick_leaves(rng, k):
-    idx = sorted(rng.sample(range(len(LEAF_POOL)), k))
+    idx = with_bases(rng.sample(range(len(LEAF_POOL)), k))
     if not any(LEAF_POOL[i]["kind"] in UTYPE_KINDS for i in idx):
-        idx[rng.randrange(k)] = rng.choice([i for i, d in enumerate(LEAF_POOL) if d["kind"] in UTYPE_KINDS])
-        idx = sorted(set(idx))
+        idx[rng.randrange(len(idx))] = rng.choice([i for i, d in enumerate(LEAF_POOL) if d["kind"] in UTYPE_KINDS])
+        idx = with_bases(idx)
     return idx
 
 
@@ -906,6 +1020,53 @@ def gen_case(rng, probe: Probe, depth=3):
     return {"leaves": leaves, "defs": defs, "opts": dict(rng.choice(OPTS_POOL)), "value": VALUE_POOL[j]}
 
 
+def case_leaves(pool_idx):
+    """leaves of a case from pool indices (bases added, a base before its subclasses); pos[i] = atom index of pool leaf i"""
+    idx = with_bases(pool_idx)
+    return [NONE_LEAF] + [LEAF_POOL[i] for i in idx], {i: k + 1 for k, i in enumerate(idx)}
+
+
+def related_cases(rng, probe: Probe, n):
+    """multi-step construction over RELATED leaves (a rule / data class and its stricter subclasses): an expression on the
+    base first, then the same on the subclass, and the other way round — negations by operator and by not_of, double
+    negations, and every binary operator; the oracle looks at the type built by EVERY step"""
+    names = {d.get("name"): i for i, d in enumerate(LEAF_POOL) if d.get("name")}
+    pairs = []
+    for i, d in enumerate(LEAF_POOL):
+        b = d.get("base")
+        while b is not None:
+            pairs.append((names[b], i))
+            b = LEAF_POOL[names[b]].get("base")
+    out = []
+    for _ in range(n):
+        base, sub = rng.choice(pairs)
+        other = rng.choice([i for i, d in enumerate(LEAF_POOL) if d["kind"] in ("cls", "rule", "dc") and i not in (base, sub)])
+        leaves, pos = case_leaves([base, sub, other])
+        B, S, X = {"atom": pos[base]}, {"atom": pos[sub]}, {"atom": pos[other]}
+        first, second = (B, S) if rng.random() < 0.5 else (S, B)
+        neg = lambda t, how: {"inv": t} if how == "op" else {"call": "~", "args": [t]}
+        h1, h2 = rng.choice(["op", "op", "call"]), rng.choice(["op", "op", "call"])
+        op = rng.choice("|^&")
+        shapes = [
+            [neg(first, h1), neg(second, h2)],
+            [neg(first, h1), neg(second, h2), {"inv": {"ref": 1}}, {"inv": {"ref": 0}}],
+            [neg(first, h1), {"bin": "&", "l": X, "r": neg(second, "op")}] if LEAF_POOL[other]["kind"] in UTYPE_KINDS
+            else [neg(first, h1), {"call": "&", "args": [X, neg(second, "op")]}],
+            [neg(first, "op"), neg(first, "op"), neg(second, h2), neg(second, "op")],
+            [{"bin": op, "l": first, "r": X}, {"bin": op, "l": second, "r": X}],
+            [{"bin": op, "l": first, "r": second}, {"bin": op, "l": second, "r": first}, neg(second, h2)],
+            [{"inv": {"inv": first}}, {"inv": {"inv": second}}, neg(second, h2)],
+            [{"bin": "|", "l": neg(first, "op"), "r": second}, {"bin": "|", "l": neg(second, "op"), "r": first}],
+        ]
+        hot = probe.hot_values([base, sub]) or list(range(len(VALUE_POOL)))
+        # prefer inputs the two related leaves judge differently
+        diff = [j for j in range(len(VALUE_POOL)) if ((base, j) in probe.acc) != ((sub, j) in probe.acc)]
+        for defs in shapes:
+            j = rng.choice(diff) if diff and rng.random() < 0.7 else rng.choice(hot)
+            out.append({"leaves": leaves, "defs": defs, "opts": dict(rng.choice(OPTS_POOL[:8])), "value": VALUE_POOL[j]})
+    return out
+
+
 def threading_cases(rng, probe: Probe, n):
     """⟨leaf A converts x to y, leaf B accepts exactly one of x, y⟩ in both argument orders, under ^ & |"""
     out = []
@@ -914,9 +1075,9 @@ def threading_cases(rng, probe: Probe, n):
     for a, b, j in tr[:n]:
         extra = rng.choice([None, None, rng.randrange(len(LEAF_POOL))])
         pool = [a, b] + ([extra] if extra is not None and extra not in (a, b) else [])
-        leaves = [NONE_LEAF] + [LEAF_POOL[i] for i in pool]
+        leaves, pos = case_leaves(pool)
         for op in "^&|":
-            for perm in itertools.permutations(range(1, len(leaves))):
+            for perm in itertools.permutations([pos[i] for i in pool]):
                 kinds = [leaves[p]["kind"] for p in perm]
                 if kinds[0] not in UTYPE_KINDS and (len(kinds) < 2 or kinds[1] not in UTYPE_KINDS):
                     e = {"call": op, "args": [{"atom": p} for p in perm]}
@@ -935,8 +1096,9 @@ def origin_type_cases(rng, probe: Probe, n):
     nleaf = len(LEAF_POOL)
     for a, j in pairs[:n]:
         b = rng.choice([i for i in range(nleaf) if i != a and LEAF_POOL[i]["kind"] not in ("any", "rulebase")])
-        leaves = [NONE_LEAF, LEAF_POOL[a], LEAF_POOL[b], {"kind": "none"}]
-        A, B, N = {"atom": 1}, {"atom": 2}, {"atom": 3}
+        leaves, pos = case_leaves([a, b])
+        leaves = leaves + [{"kind": "none"}]
+        A, B, N = {"atom": pos[a]}, {"atom": pos[b]}, {"atom": len(leaves) - 1}
         forms = [{"bin": "|", "l": A, "r": N}, {"bin": "|", "l": N, "r": A}, {"bin": "|", "l": A, "r": B},
                  {"call": "|", "args": [B, A]}, {"bin": "^", "l": A, "r": N}, {"bin": "^", "l": A, "r": B},
                  {"inv": A}, {"bin": "|", "l": {"inv": A}, "r": N}, {"bin": "&", "l": A, "r": {"inv": B}},
@@ -960,7 +1122,10 @@ def perm_family(rng, probe: Probe):
     j = rng.choice(hot) if hot and rng.random() < 0.8 else rng.randrange(len(VALUE_POOL))
     opts = dict(rng.choice(OPTS_POOL))
     out = []
-    for perm in itertools.permutations(range(1, len(leaves))):
+    perms = list(itertools.permutations(range(1, len(leaves))))
+    if len(perms) > 24:                      # (bases brought along can make 5-6 leaves)
+        perms = rng.sample(perms, 24)
+    for perm in perms:
         out.append({"leaves": leaves, "defs": [{"call": op, "args": [{"atom": p} for p in perm]}], "opts": opts,
                     "value": VALUE_POOL[j]})
     return out
@@ -1053,9 +1218,9 @@ class C09(Check):
     impl = "harness.c09:impl"
     case_timeout = 20.0
     rule = ("operator expressions (|, ^, &, ~, any_of/one_of/all_of/not_of, shared sub-expressions, depth<=3) over 2-5 leaves "
-            "drawn from 42 leaf descriptors (builtin classes; Rule subclasses decided by validators, by contains/min/max_contains "
+            "drawn from 48 leaf descriptors incl. related ones (a rule / data class and its stricter subclasses; multi-step constructions on base then subclass and vice versa, oracle after every step) (builtin classes; Rule subclasses decided by validators, by contains/min/max_contains "
             "only, by pre/post_validate hooks only, by item types only, bare, library NanFloat/InfinityFloat; typing generics, "
-            "literals, data classes, Any, None, Rule) x 56 input values x 14 option sets, called directly, as a data-class field "
+            "literals, data classes, Any, None, Rule) x 61 input values x 14 option sets, called directly, as a data-class field "
             "and as an Optional[...] field; every rule leaf is paired with inputs of exactly its ORIGIN type that it rejects / accepts;  leaf-pairs where one leaf converts the input and "
             "another accepts exactly one of (input, converted) are found by probing the real leaves first and emitted in "
             "every argument order; permutation families emit one combinator in every order of its arguments.  "
@@ -1088,6 +1253,7 @@ class C09(Check):
             out += kind_matrix()
         if tier == "thorough":
             out += exhaustive_small()
+        out += related_cases(rng, pr, {"quick": 60, "thorough": 500, "search": 100}.get(tier, 60))
         out += origin_type_cases(rng, pr, {"quick": 60, "thorough": 400, "search": 100}.get(tier, 60))
         out += threading_cases(rng, pr, {"quick": 12, "thorough": 150, "search": 40}.get(tier, 12))
         for _ in range({"quick": 25, "thorough": 300, "search": 60}.get(tier, 25)):
@@ -1156,6 +1322,9 @@ class C09(Check):
                 return None
             return f"only one side builds a utype type: impl={io.get('foreign', io.get('builderr', io['struct']))} model={mo['struct']}"
         a, b = norm_ids(io["struct"]), norm_ids(mo["struct"])
+        if io.get("structs") and mo.get("structs") and len(io["structs"]) == len(mo["structs"]):
+            a = norm_ids({"steps": True, "args": io["structs"]})
+            b = norm_ids({"steps": True, "args": mo["structs"]})
         if a != b:
             return f"constructed types differ: impl={json.dumps(a)} model={json.dumps(b)}"
         if io.get("incomplete"):
@@ -1187,6 +1356,40 @@ class C09(Check):
             return f"outcome differs: impl={r} model={ {'err': back(m['err'])} }"
         return None
 
+    def sweep(self, cases, impl_outs, model_outs, findings):
+        """Failing inputs are re-run ALONE in a fresh interpreter before they are reported: a change that keeps state on
+        library classes (a cache on `Rule`) can make a case fail only because of the cases the worker ran before it, and
+        such a replay would not reproduce.  Cases that still fail alone are preferred; if none does, the
+        history-dependent ones are reported as they are."""
+        disagreements, unknown, known = super().sweep(cases, impl_outs, model_outs, findings)
+        if unknown:
+            by_len = sorted(unknown, key=lambda u: len(json.dumps(u["case"])))
+            multi = [u for u in by_len if len(u["case"]["defs"]) > 1 or any(d.get("base") for d in u["case"]["leaves"])]
+            cand = by_len[:12] + [u for u in multi if u not in by_len[:12]][:28]
+            from concurrent.futures import ThreadPoolExecutor
+            from .common import NCPU
+
+            def alone(u):
+                io = run_impl(self.impl, [u["case"]], self.case_timeout, jobs=1, extra_env=self.impl_env)[0]
+                why = self.spec(u["case"], io, None) if not (isinstance(io, dict) and "__worker_exc__" in io) else None
+                if why and not (self.classify(u["case"], io, why) in findings):
+                    return dict(u, impl=io, why=why)
+                return None
+
+            with ThreadPoolExecutor(max_workers=max(1, NCPU)) as ex:
+                confirmed = [c for c in ex.map(alone, cand) if c]
+            if confirmed:
+                rest = [u for u in unknown if u not in cand]
+                unknown = confirmed + rest
+                # run() reports the shortest case: make sure it is a confirmed one
+                unknown.sort(key=lambda u: (u not in confirmed, len(json.dumps(u["case"]))))
+                unknown = confirmed + [dict(u, case=u["case"]) for u in rest if len(json.dumps(u["case"])) >
+                                       max(len(json.dumps(c["case"])) for c in confirmed)]
+            else:
+                for u in unknown:
+                    u["why"] = "(fails only after other cases ran in the same interpreter) " + u["why"]
+        return disagreements, unknown, known
+
     # ---- the property on the implementation's behaviour ------------------------------------------
     def violations(self, case, io):
         if not isinstance(io, dict) or "struct" not in io:
@@ -1195,8 +1398,12 @@ class C09(Check):
             if "builderr" in io:
                 return [("build", f"an operator / constructor applied to a utype type raised: {io['builderr']}")]
             return []
-        out = list(algebra_violations(case, io["struct"]))
-        out += order_violations(case, io["struct"])
+        steps = io.get("structs") or [io["struct"]]
+        out = []
+        for st in steps:                 # the algebra holds after EVERY construction step
+            out += algebra_violations(case, st)
+        out += order_violations(case, steps if io.get("structs") else io["struct"])
+        out += negation_step_violations(case, io)
         out += [("law", w) for w in node_law_violations(case, io)]
         return out
 
